@@ -12,6 +12,32 @@ use wirefilter::{
 
 thread_local! {
     static SENTINEL: Cell<u64> = const { Cell::new(0) };
+    /// number of upcoming heap allocations of this thread that are delayed (schedule perturbation)
+    static SLOW_ALLOCS: Cell<u32> = const { Cell::new(0) };
+}
+
+/// Global allocator of the harness: identical to the system allocator, except that a thread can ask
+/// for its next few allocations to take ~100 microseconds each.  The race stage uses it to stretch the
+/// code between two library calls inside `panic_catcher_set_hook` (the closure is boxed between
+/// `take_hook` and `set_hook`); slower allocation is legal behaviour of an allocator, so nothing that
+/// holds on the unperturbed program can fail because of it.
+pub struct PerturbAlloc;
+unsafe impl std::alloc::GlobalAlloc for PerturbAlloc {
+    unsafe fn alloc(&self, l: std::alloc::Layout) -> *mut u8 {
+        if let Ok(n) = SLOW_ALLOCS.try_with(|c| c.get()) {
+            if n > 0 {
+                let _ = SLOW_ALLOCS.try_with(|c| c.set(n - 1));
+                let t0 = std::time::Instant::now();
+                while t0.elapsed().as_micros() < 100 {
+                    std::hint::spin_loop();
+                }
+            }
+        }
+        std::alloc::System.alloc(l)
+    }
+    unsafe fn dealloc(&self, p: *mut u8, l: std::alloc::Layout) {
+        std::alloc::System.dealloc(p, l)
+    }
 }
 static INSTALL: Once = Once::new();
 
@@ -60,6 +86,8 @@ struct Turn {
 struct Th<'a> {
     t: usize,
     turn: Option<&'a Turn>,
+    /// delay this many allocations made inside the `sethook` operation
+    slow_install: u32,
     obs: Vec<Value>,
     levels: Vec<u64>,
 }
@@ -96,7 +124,11 @@ impl Th<'_> {
                     match o.as_str() {
                         "enable" => panic_catcher_enable(),
                         "disable" => panic_catcher_disable(),
-                        "sethook" => panic_catcher_set_hook(),
+                        "sethook" => {
+                            SLOW_ALLOCS.with(|c| c.set(self.slow_install));
+                            panic_catcher_set_hook();
+                            SLOW_ALLOCS.with(|c| c.set(0));
+                        }
                         "cont" => {
                             panic_catcher_set_fallback_mode(PanicCatcherFallbackMode::Continue);
                         }
@@ -136,13 +168,44 @@ impl Th<'_> {
 }
 
 fn run_thread(t: usize, ops: Vec<String>, turn: Option<Arc<Turn>>) -> Value {
+    run_thread_gated(t, ops, turn, None, 0)
+}
+
+/// Start gate of the race stage.  Script threads count `ready` down and spin until the blocker thread
+/// is inside the previously installed (sentinel) hook; the blocker waits for `ready == 0`, then panics
+/// outside catch_panic.  std runs a panic hook under the read lock of the global hook, so every script
+/// thread reaches `take_hook` (a write lock) while it is held and they all leave it at the same moment.
+pub struct Gate {
+    ready: std::sync::atomic::AtomicUsize,
+    blocker: bool,
+}
+static IN_HOOK: std::sync::atomic::AtomicBool = std::sync::atomic::AtomicBool::new(false);
+thread_local! {
+    static IS_BLOCKER: Cell<bool> = const { Cell::new(false) };
+}
+
+fn run_thread_gated(t: usize, ops: Vec<String>, turn: Option<Arc<Turn>>, gate: Option<(Arc<Gate>, bool)>, slow_install: u32) -> Value {
+    use std::sync::atomic::Ordering;
     let h = std::thread::Builder::new()
         .name(format!("script-{t}"))
         .spawn(move || {
             let mut i = 0;
             let tree = parse(&ops, &mut i);
             let tref = turn.as_deref();
-            let mut th = Th { t, turn: tref, obs: vec![], levels: vec![] };
+            let mut th = Th { t, turn: tref, obs: Vec::with_capacity(16), levels: Vec::with_capacity(64), slow_install };
+            if let Some((g, is_blocker)) = gate {
+                if is_blocker {
+                    IS_BLOCKER.with(|c| c.set(true));
+                    while g.ready.load(Ordering::SeqCst) > 0 {
+                        std::hint::spin_loop();
+                    }
+                } else {
+                    g.ready.fetch_sub(1, Ordering::SeqCst);
+                    while g.blocker && !IN_HOOK.load(Ordering::SeqCst) || g.ready.load(Ordering::SeqCst) > 0 {
+                        std::hint::spin_loop();
+                    }
+                }
+            }
             let r = catch_unwind(AssertUnwindSafe(|| th.run(&tree)));
             let mut status = "run";
             if let Err(p) = r {
@@ -249,4 +312,46 @@ pub fn rerun_script(t: usize, ops: Vec<String>, out: &mut Vec<Value>) {
     install_hooks();
     let res = std::thread::spawn(move || run_thread(t, ops, None)).join().unwrap();
     out.push(res);
+}
+
+/// First-installation race (observation O1 / property C19 across threads): in a fresh process
+/// without an installed hook, `threads` threads simultaneously install the hook, enable catching
+/// and panic inside catch_panic.  Each thread's observation is judged like any other script.
+pub fn race_child(threads: usize, with_blocker: bool) -> Vec<Value> {
+    use std::sync::atomic::{AtomicUsize, Ordering};
+    // the previously installed hook; on the blocker thread it takes 300 microseconds
+    std::panic::set_hook(Box::new(|_| {
+        SENTINEL.with(|c| c.set(c.get() + 1));
+        if IS_BLOCKER.with(|c| c.get()) {
+            IN_HOOK.store(true, Ordering::SeqCst);
+            let t0 = std::time::Instant::now();
+            while t0.elapsed().as_micros() < 300 {
+                std::hint::spin_loop();
+            }
+        }
+    }));
+    let gate = Arc::new(Gate { ready: AtomicUsize::new(threads), blocker: with_blocker });
+    let script: Vec<String> = ["sethook", "enable", "enter", "panic", "ret", "enter", "enter", "panic", "ret", "ret"].iter().map(|s| s.to_string()).collect();
+    let mut scripts = vec![script; threads];
+    if with_blocker {
+        scripts.push(vec!["panic".to_string()]);
+    }
+    let hs: Vec<_> = scripts
+        .iter()
+        .enumerate()
+        .map(|(i, sc)| {
+            let t = i + 1;
+            let g = gate.clone();
+            let sc = sc.clone();
+            // odd threads install slowly (their allocations inside set_hook are delayed), even ones at full speed
+            let slow = if t % 2 == 1 { 4 } else { 0 };
+            std::thread::spawn(move || (t, run_thread_gated(t, sc, None, Some((g, t > threads)), slow)))
+        })
+        .collect();
+    hs.into_iter()
+        .map(|h| {
+            let (t, res) = h.join().unwrap();
+            json!({"ev": "script", "t": t, "script": scripts[t - 1], "obs": res["obs"], "levels": res["levels"], "sent": res["sent"], "status": res["status"], "race": true})
+        })
+        .collect()
 }
